@@ -25,6 +25,8 @@ func main() {
 		os.Exit(checkMain(os.Args[2:]))
 	case "list":
 		listMain()
+	case "replay":
+		os.Exit(replayMain(os.Args[2:]))
 	case "manifest":
 		manifestMain()
 	case "selftest":
